@@ -1,78 +1,5 @@
-(* C05/Proofs5.v -- the exact inputs on which the two crash sites of the frame parsers fire. *)
+(* C05/Proofs5.v -- from the Hoare-style judgement to the plain statement. *)
 From GocqlV Require Import Lib.Base Gen.Consts C04.Model C04.Proofs1 C05.Model C05.Proofs1.
-
-Arguments Z.mul : simpl never.
-Arguments Z.add : simpl never.
-Arguments Z.pow : simpl never.
-Arguments Z.of_nat : simpl never.
-Arguments Z.to_nat : simpl never.
-Arguments Z.ltb : simpl never.
-Arguments Z.leb : simpl never.
-Arguments Z.eqb : simpl never.
-Arguments Z.gtb : simpl never.
-Arguments Z.geb : simpl never.
-Arguments Z.land : simpl never.
-
-(* readInetAdressOnly panics exactly when the size byte is 4 or 16 and at least one but fewer than
-   that many bytes follow *)
-Lemma read_inet_addr_crash_iff b c :
-  out read_inet_addr b = Crash c <->
-  c = CInetSlice /\ exists sz rest, b = sz :: rest /\ (sz = 4 \/ sz = 16) /\ 1 <= blen rest < sz.
-Proof.
-  unfold read_inet_addr. rewrite out_bind. unfold rbind. destruct b as [|sz rest].
-  - rewrite out_need_short by (rewrite blen_nil; lia). split; [discriminate|]. intros (_ & s & r & H & _). discriminate.
-  - rewrite out_need_ok by (rewrite blen_cons; pose proof (blen_nonneg rest); lia).
-    rewrite out_bind. unfold rbind. change (sz :: rest) with ([sz] ++ rest). rewrite out_take_app by reflexivity.
-    cbv zeta. rewrite be_dec_1.
-    destruct (Z.eqb_spec sz 4) as [E4|E4]; [|destruct (Z.eqb_spec sz 16) as [E16|E16]]; cbn [orb negb].
-    1,2: rewrite out_bind; unfold rbind; destruct (Z.ltb_spec (blen rest) 1) as [H1|H1];
-      [ rewrite out_need_short by assumption; split; [discriminate|]; intros (_ & s & r & Hb & _ & Hl); inversion Hb; subst; lia
-      | rewrite out_need_ok by assumption; rewrite out_bind; unfold rbind; rewrite out_alloc;
-        destruct (Z.ltb_spec (blen rest) sz) as [H2|H2];
-        [ rewrite out_take_crash by (right; assumption); split;
-          [ intros H; inversion H; split; [reflexivity|]; exists sz, rest; repeat split; auto; lia
-          | intros (-> & _); reflexivity ]
-        | rewrite out_take_ok by lia; split; [discriminate|]; intros (_ & s & r & Hb & _ & Hl); inversion Hb; subst; lia ] ].
-    rewrite out_fail. split; [discriminate|]. intros (_ & s & r & Hb & Hs & _). inversion Hb; subst. lia.
-Qed.
-
-(* parsePreparedMetadata panics exactly when, with a framer of protocol 4 or 5, the flags and a
-   non-negative column count are followed by a negative partition-key count *)
-Lemma parse_prepared_metadata_crash proto b c : wf_bytes b ->
-  out (parse_prepared_metadata proto) b = Crash c ->
-  c = CPkeyMake /\ proto >= K.protoVersion4
-  /\ exists f b1 cc b2 pk b3, out read_int b = Ok (f, b1) /\ out read_int b1 = Ok (cc, b2) /\ 0 <= cc
-                              /\ out read_int b2 = Ok (pk, b3) /\ pk < 0.
-Proof.
-  intros Hb Hc.
-  assert (Hsite : c = CPkeyMake /\ proto >= K.protoVersion4).
-  { destruct (Z_ge_dec proto K.protoVersion4) as [Hp|Hp].
-    - split; [|exact Hp]. pose proof (good_parse_prepared_metadata [CPkeyMake] proto (fun _ => or_introl eq_refl) b Hb) as G.
-      rewrite Hc in G. destruct G as [G|[]]. symmetry. exact G.
-    - exfalso. pose proof (good_parse_prepared_metadata [] proto (fun H => False_ind _ (Hp H)) b Hb) as G. rewrite Hc in G. exact G. }
-  destruct Hsite as [-> Hp]. split; [reflexivity|]. split; [exact Hp|].
-  unfold parse_prepared_metadata in Hc. rewrite out_bind in Hc. unfold rbind in Hc.
-  pose proof (good_read_int [] b Hb) as G1. destruct (out read_int b) as [[f b1]|e|c1] eqn:E1; try discriminate; [|contradiction].
-  destruct G1 as [_ Hs1]. pose proof (suffix_wf _ _ Hs1 Hb) as Hb1.
-  rewrite out_bind in Hc. unfold rbind in Hc.
-  pose proof (good_read_int [] b1 Hb1) as G2. destruct (out read_int b1) as [[cc b2]|e|c2] eqn:E2; try discriminate; [|contradiction].
-  destruct G2 as [_ Hs2]. pose proof (suffix_wf _ _ Hs2 Hb1) as Hb2.
-  destruct (Z.ltb_spec cc 0) as [Hcc|Hcc]; [discriminate|].
-  rewrite out_bind in Hc. unfold rbind in Hc.
-  destruct (Z.geb_spec proto K.protoVersion4) as [_|Hn]; [|lia].
-  rewrite out_bind in Hc. unfold rbind in Hc.
-  pose proof (good_read_int [] b2 Hb2) as G3. destruct (out read_int b2) as [[pk b3]|e|c3] eqn:E3; try discriminate; [|contradiction].
-  destruct G3 as [_ Hs3]. pose proof (suffix_wf _ _ Hs3 Hb2) as Hb3.
-  destruct (Z.ltb_spec pk 0) as [Hpk|Hpk].
-  - exists f, b1, cc, b2, pk, b3. repeat split; auto.
-  - exfalso. rewrite out_bind in Hc. unfold rbind in Hc. rewrite out_alloc in Hc.
-    pose proof (good_read_count [] (fun x => 0 <= x < 65536) read_short pk (good_read_short []) b3 Hb3) as G4.
-    destruct (out (read_count read_short pk) b3) as [[pks b4]|e|c4] eqn:E4; try discriminate; [|contradiction].
-    destruct G4 as [_ Hs4]. pose proof (suffix_wf _ _ Hs4 Hb3) as Hb4.
-    rewrite out_bind in Hc. unfold rbind in Hc.
-    pose proof (good_read_meta_tail [] f cc b4 Hb4) as G5.
-    destruct (out (read_meta_tail f cc) b4) as [[r b5]|e|c5] eqn:E5; try discriminate. contradiction.
-Qed.
 
 Lemma good_nil_never {A} (Q : A -> Prop) (p : P A) : good [] Q p -> never_crashes p.
 Proof. intros G b c Hb H. specialize (G b Hb). rewrite H in G. exact G. Qed.
